@@ -72,6 +72,10 @@ type Error struct {
 	Chain  string
 	Text   string // the offending rule text
 	Msg    string
+	// Class is a short stable identifier of the reason (for violation keys), e.g.
+	// "multiport-too-many-ports", "multiple-proto-flags", "wrong-family-address",
+	// "conflicting-family", "match-needs-proto", "missing-chain", "missing-set", "set-type".
+	Class string
 }
 
 func (e *Error) Error() string {
@@ -427,21 +431,21 @@ func (rs *Ruleset) Validate() error {
 		for _, r := range append(append([]*Rule(nil), c.Rules...), c.appended...) {
 			for _, t := range r.chains {
 				if rs.chains[t] == nil {
-					return &Error{Kind: Rejected, Flavor: rs.Flavor, Chain: n, Text: r.Text, Msg: "jump/goto to missing chain " + t}
+					return &Error{Kind: Rejected, Flavor: rs.Flavor, Chain: n, Text: r.Text, Class: "missing-chain", Msg: "jump/goto to missing chain " + t}
 				}
 			}
 			for _, sr := range r.sets {
 				s := rs.sets[sr.name]
 				if s == nil {
-					return &Error{Kind: Rejected, Flavor: rs.Flavor, Chain: n, Text: r.Text, Msg: "reference to missing set " + sr.name}
+					return &Error{Kind: Rejected, Flavor: rs.Flavor, Chain: n, Text: r.Text, Class: "missing-set", Msg: "reference to missing set " + sr.name}
 				}
 				if sr.typed && s.IPPort != sr.ipport {
-					return &Error{Kind: Rejected, Flavor: rs.Flavor, Chain: n, Text: r.Text, Msg: "set " + sr.name + " has the wrong type for this lookup"}
+					return &Error{Kind: Rejected, Flavor: rs.Flavor, Chain: n, Text: r.Text, Class: "set-type", Msg: "set " + sr.name + " has the wrong type for this lookup"}
 				}
 			}
 			for _, m := range r.vmaps {
 				if rs.vmaps[m] == nil {
-					return &Error{Kind: Rejected, Flavor: rs.Flavor, Chain: n, Text: r.Text, Msg: "reference to missing verdict map " + m}
+					return &Error{Kind: Rejected, Flavor: rs.Flavor, Chain: n, Text: r.Text, Class: "missing-vmap", Msg: "reference to missing verdict map " + m}
 				}
 			}
 		}
@@ -449,7 +453,7 @@ func (rs *Ruleset) Validate() error {
 	for mn, m := range rs.vmaps {
 		for k, e := range m {
 			if e.Goto != "" && rs.chains[e.Goto] == nil {
-				return &Error{Kind: Rejected, Flavor: rs.Flavor, Chain: mn, Text: k, Msg: "verdict map element refers to missing chain " + e.Goto}
+				return &Error{Kind: Rejected, Flavor: rs.Flavor, Chain: mn, Text: k, Class: "missing-chain", Msg: "verdict map element refers to missing chain " + e.Goto}
 			}
 		}
 	}
@@ -522,7 +526,7 @@ type frame struct {
 func (rs *Ruleset) Run(start string, pkt *Packet) (*Result, error) {
 	c := rs.chains[start]
 	if c == nil {
-		return nil, &Error{Kind: Rejected, Flavor: rs.Flavor, Chain: start, Msg: "start chain does not exist"}
+		return nil, &Error{Kind: Rejected, Flavor: rs.Flavor, Chain: start, Class: "missing-chain", Msg: "start chain does not exist"}
 	}
 	res := &Result{}
 	st := &evalState{pkt: *pkt, res: res}
@@ -533,7 +537,7 @@ func (rs *Ruleset) Run(start string, pkt *Packet) (*Result, error) {
 	enter := func(name string) (*Chain, error) {
 		t := rs.chains[name]
 		if t == nil {
-			return nil, &Error{Kind: Rejected, Flavor: rs.Flavor, Chain: cur.chain.Name, Msg: "jump/goto to missing chain " + name}
+			return nil, &Error{Kind: Rejected, Flavor: rs.Flavor, Chain: cur.chain.Name, Class: "missing-chain", Msg: "jump/goto to missing chain " + name}
 		}
 		seen := false
 		for _, v := range res.Visited {
@@ -625,7 +629,7 @@ func (rs *Ruleset) Run(start string, pkt *Packet) (*Result, error) {
 			}
 			m := rs.vmaps[term.target]
 			if m == nil {
-				return nil, &Error{Kind: Rejected, Flavor: rs.Flavor, Chain: cur.chain.Name, Text: r.Text, Msg: "missing verdict map " + term.target}
+				return nil, &Error{Kind: Rejected, Flavor: rs.Flavor, Chain: cur.chain.Name, Text: r.Text, Class: "missing-vmap", Msg: "missing verdict map " + term.target}
 			}
 			e, ok := m[key]
 			if !ok || key == "" {
@@ -737,4 +741,6 @@ func thPorts(p *Packet) (sport, dport uint16) {
 }
 
 func unparsed(msg, text string) error { return &Error{Kind: Unparsed, Msg: msg, Text: text} }
-func rejected(msg, text string) error { return &Error{Kind: Rejected, Msg: msg, Text: text} }
+func rejected(class, msg, text string) error {
+	return &Error{Kind: Rejected, Class: class, Msg: msg, Text: text}
+}
